@@ -48,3 +48,37 @@ pub mod manifest;
 // Re-export main API
 pub use batch_stark_prover::*;
 pub use constraint_profile::ConstraintProfile;
+
+/// Verification hooks (guard: `--cfg p3_recursion_verif`).
+///
+/// `set_matrix_tamper` installs a thread-local callback that `BatchStarkProver::prove` invokes
+/// on the per-table main trace matrices (`Vec<RowMajorMatrix<Val<SC>>>`, passed as `dyn Any`)
+/// right before `p3_batch_stark::prove_batch`, so that an external harness can commit to
+/// traces a malicious prover could produce.
+#[cfg(p3_recursion_verif)]
+pub mod verif_hooks {
+    extern crate std;
+
+    use alloc::boxed::Box;
+    use core::any::Any;
+    use core::cell::RefCell;
+
+    type Tamper = Box<dyn FnMut(&mut dyn Any)>;
+
+    std::thread_local! {
+        static TAMPER: RefCell<Option<Tamper>> = const { RefCell::new(None) };
+    }
+
+    /// Install (or clear, with `None`) the tamper callback of the current thread.
+    pub fn set_matrix_tamper(f: Option<Tamper>) {
+        TAMPER.with(|t| *t.borrow_mut() = f);
+    }
+
+    pub(crate) fn run_matrix_tamper(traces: &mut dyn Any) {
+        TAMPER.with(|t| {
+            if let Some(f) = t.borrow_mut().as_mut() {
+                f(traces);
+            }
+        });
+    }
+}
